@@ -1,7 +1,9 @@
 (** Model of fabio's redirect routes (property C13):
     - route/target.go  [Target.BuildRedirectURL]                       -> [build_redirect_url]
     - route/route.go   redirect option parsing (strconv.Atoi, 300-399) -> [redirect_code]
+      (as repaired by fix fa24a7f; the old behaviour is kept as [redirect_code_unrepaired])
     - route/table.go   [Table.Lookup] host loop with the self-redirect skip -> [lookup_loop]
+      (as repaired by fix 4431a54; the old loop is kept as [lookup_loop_unrepaired])
     - proxy/http_proxy.go [HTTPProxy.ServeHTTP] redirect branch (http.Redirect) -> [serve]
     - the RedirectURL field of the SHARED *route.Target, written by Lookup and read
       later by ServeHTTP -> two atomic actions on a shared store, [run_sched].
@@ -211,7 +213,16 @@ Definition redirect_code (opt : str) : Z :=
   if is_nil opt then 0%Z
   else let '(v, ok) := atoi opt in
        if ok then (if (v <? 300)%Z || (v >? 399)%Z then 0%Z else v)
-       else v.     (* only logged: the value Atoi returned with the error stays in the field *)
+       else 0%Z.   (* reset on any Atoi error (fix: fa24a7f) *)
+
+(* before fix fa24a7f the error was only logged: the value Atoi returned WITH the error
+   (MaxInt64 / MinInt64 on a range error) stayed in the field.  Used only by the
+   refutation theorem. *)
+Definition redirect_code_unrepaired (opt : str) : Z :=
+  if is_nil opt then 0%Z
+  else let '(v, ok) := atoi opt in
+       if ok then (if (v <? 300)%Z || (v >? 399)%Z then 0%Z else v)
+       else v.
 
 (* ------------------------------------------------------------------ *)
 (** * route/table.go:424-441: the host loop of Table.Lookup *)
@@ -220,7 +231,8 @@ Definition is_self (u : url) (q : request) : bool :=
 
 (* [cands]: what t.lookup(h, path) yields for each matching host, then for "".
    [cur] is the loop variable `target` (it survives the loop).  Result: the target
-   returned and the writes to Target.RedirectURL in program order. *)
+   returned and the writes to Target.RedirectURL in program order.  A skipped
+   self-redirect is cleared before `continue` (fix: 4431a54). *)
 Fixpoint lookup_loop (q : request) (cands : list (option target)) (cur : option target)
   : option target * list (nat * url) :=
   match cands with
@@ -231,10 +243,27 @@ Fixpoint lookup_loop (q : request) (cands : list (option target)) (cur : option 
       else
         let u := build_redirect_url t q in
         if is_self u q then
-          let '(res, ws) := lookup_loop q r (Some t) in (res, (t_id t, u) :: ws)
+          let '(res, ws) := lookup_loop q r None in (res, (t_id t, u) :: ws)
         else (Some t, [(t_id t, u)])
   end.
 Definition lookup (q : request) (cands : list (option target)) := lookup_loop q cands None.
+
+(* before fix 4431a54 the loop variable kept pointing at the skipped target.  Used only by
+   the refutation theorem. *)
+Fixpoint lookup_loop_unrepaired (q : request) (cands : list (option target)) (cur : option target)
+  : option target * list (nat * url) :=
+  match cands with
+  | [] => (cur, [])
+  | None :: r => lookup_loop_unrepaired q r None
+  | Some t :: r =>
+      if (t_code t =? 0)%Z then (Some t, [])
+      else
+        let u := build_redirect_url t q in
+        if is_self u q then
+          let '(res, ws) := lookup_loop_unrepaired q r (Some t) in (res, (t_id t, u) :: ws)
+        else (Some t, [(t_id t, u)])
+  end.
+Definition lookup_unrepaired (q : request) (cands : list (option target)) := lookup_loop_unrepaired q cands None.
 
 (* ------------------------------------------------------------------ *)
 (** * shared targets: the RedirectURL fields *)
